@@ -467,6 +467,7 @@ def run(ctx):
         if i < len(meta):
             ctx.sample({"argv": meta[i][3], "input": show(meta[i][4]), "observed": show(meta[i][5])})
     count_identities(ctx, oracle_bad)
+    finding_probes(ctx, oracle_bad)
     # ---- verdict
     if not ok:
         if oracle_bad:
@@ -548,6 +549,17 @@ def count_identities(ctx, oracle_bad):
         if len(g) != sum(1 for r in inp if gkey(fs, r) is not None):
             oracle_bad.append({"argv": ["mlr"] + IOFLAGS + ["group-by", b",".join(fs).decode()], "input": show(inp), "observed": show(g),
                                "law": "group sizes sum to the number of records having the group-by fields", "class": "other"})
+
+
+def finding_probes(ctx, oracle_bad):
+    """fixed witness of the recorded finding class (reported under its class while it reproduces)"""
+    recs = [[(b"a", b"x,y"), (b"b", b"z"), (b"c", b"1")], [(b"a", b"x"), (b"b", b"y,z"), (b"c", b"2")]]
+    for args, want in ((["head", "-n", "1", "-g", "a,b"], recs), (["tail", "-n", "1", "-g", "a,b"], recs), (["decimate", "-n", "2", "-g", "a,b"], [])):
+        st, out, err = run_verbs(ctx, [(args, recs)])[0]
+        ctx.count(("finding-probe", args))
+        if st != 0 or out != want:
+            oracle_bad.append({"argv": ["mlr"] + IOFLAGS + args, "input": show(recs), "observed": show(out), "expected": show(want),
+                               "law": "per group: records with different group-by values are in different groups", "class": "grouping-key-comma-collision"})
 
 
 def replay(ctx, path):
